@@ -9,6 +9,7 @@ false (Sqfs/Witness/C11.lean) — the theorems about that older code are a froze
 -/
 import Sqfs.Proofs.FsTreeSorted
 import Sqfs.Proofs.FsTreeSortFile
+import Sqfs.Proofs.FsTreeScanLinks
 
 namespace Sqfs.C11
 open Sqfs.FsTree
@@ -129,6 +130,20 @@ theorem numbering_deterministic {links₁ links₂ : List Path} (hp : links₁.P
     (hflat : FlatLinks tree links₁) : postProcess tree links₁ = postProcess tree links₂ :=
   postProcess_perm hp tree hflat
 
+/-- `FlatLinks` discharged for the scan: whatever `gensquashfs --pack-dir` (no prefix, fresh tree) leaves in
+`links_unresolved` — for every forest, every enumeration, every option set, with or without the `qsort` in the native
+iterator — post-processing gives the same tree, inode numbers and file list for **every** order of that list.  (Every
+pending link points at the path the hard-link filter recorded for the first name of the file; at that path there is the
+node made from that first name, or — when that name was filtered out — nothing, in which case `fstree_post_process`
+fails for every order: `Sqfs.FsTree.scanInto_links`, `postProcess_perm'`.)  So the only way the readdir order can reach
+inode numbers and file list is through the *tree* (which name of a file became the real one) — the part `read_names`
+fixes. -/
+theorem pack_dir_links_order_free {sorted : Bool} {d : Defaults} {cfg : Cfg} {fnm : Fnm} {rootDev : Nat} {e : List HNode}
+    {t : TNode} {links links' : List Path} (hpfx : cfg.pfx = []) (hwf : WFList e)
+    (h : scanInto sorted d cfg fnm rootDev e (initRoot d) [] = some (t, links)) (hp : links.Perm links') :
+    postProcess t links = postProcess t links' :=
+  postProcess_perm' hp t (scanInto_links hpfx hwf h)
+
 /-- Whatever the enumeration order, the options and the iterator (pinned or repaired): the tree `--pack-dir` hands to
 the serialiser has **every** directory strictly sorted by `strcmp` (so names are pairwise different and the order of
 directory entries, of the DFS numbering and of the file list is fixed by the names alone). -/
@@ -187,16 +202,6 @@ example : FPerm [fa, fb, fc, dd [fa, fb]] [dd [fb, fa], fc, fb, fa] := by
 example : WFList [fa, fb, fc, dd [fa, fb]] := by
   simp [WFList, WFNode, HNode.name, fa, fb, fc, dd]
 
-/-- `NoMultiLink` holds of a forest without the second name `c` … -/
-example : NoMultiLink [fa, fb, dd [fe]] ∧ WFList [fa, fb, dd [fe]] := by
-  refine ⟨?_, ?_⟩
-  · simp [NoMultiLink, keysList, keysNode, fa, fb, fe, dd, st, isDirMode, isType, Consts.sIFMT, Consts.sIFDIR]
-  · simp [WFList, WFNode, HNode.name, fa, fb, fe, dd]
-
-/-- … and fails of the witness forest (so `scan_perm_invariant_partial` does not contradict the witness) -/
-example : ¬ NoMultiLink [fa, fb, fc] := by
-  simp [NoMultiLink, keysList, keysNode, fa, fb, fc, st, isDirMode, isType, Consts.sIFMT, Consts.sIFDIR]
-
 /-- `FlatLinks` holds of what the scan of `{a, b, c, e | a = c = e}` leaves behind: two pending links, both to `a` -/
 private def wcfg : Cfg :=
   { flags := Consts.dirScanKeepUid ||| Consts.dirScanKeepGid ||| Consts.dirScanKeepMode, defUid := 0,
@@ -216,11 +221,45 @@ example : FlatLinks wscan.1 wscan.2 := by
   · exact ⟨[[0x61]], flatAt_of_flatAtB (by decide)⟩
   · exact ⟨[[0x61]], flatAt_of_flatAtB (by decide)⟩
 
+/-- the hypotheses of `pack_dir_links_order_free` are satisfiable (the scan above: two pending links) … -/
+example : wcfg.pfx = [] ∧ WFList [fa, fb, fc, fe'] ∧
+    (scanInto true wd wcfg (fun _ _ _ => true) 1 [fa, fb, fc, fe'] (initRoot wd) []).isSome = true := by
+  refine ⟨rfl, ?_, by decide⟩
+  simp [WFList, WFNode, HNode.name, fa, fb, fc, fe']
+/-- … and its "dangling" branch is real: with the first name `a` filtered out by the name pattern the links `c`, `e` point
+at nothing and post-processing fails (for every order) -/
+example : (scanInto true wd { wcfg with pattern := some [] } (fun _ s _ => s != [0x61]) 1 [fa, fb, fc, fe'] (initRoot wd) []).isSome
+      = true ∧
+    (packDir true wd { wcfg with pattern := some [] } (fun _ s _ => s != [0x61]) 1 [fa, fb, fc, fe']).isNone = true := by
+  decide
+
 /-- the scan of the witness forest succeeds (hypothesis of `scan_tree_sorted`), with either iterator -/
 example : (packDir true wd wcfg (fun _ _ _ => true) 1 [fc, fb, fa]).isSome = true := by decide
 example : (packDir false wd wcfg (fun _ _ _ => true) 1 [fc, fb, fa]).isSome = true := by decide
 
 example : (insertSorted (.mk [0x62] default []) [.mk [0x61] default [], .mk [0x63] default []]).map TNode.name
     = [[0x61], [0x62], [0x63]] := by decide
+
+/-- `compare_names` compares unsigned bytes (0x80 sorts behind 0x7f) and a proper prefix sorts first -/
+example : compareNames (.mk [0x61, 0x80] default [] []) (.mk [0x61, 0x7f] default [] []) > 0 ∧
+    compareNames (.mk [0x61] default [] []) (.mk [0x61, 0x01] default [] []) < 0 := by decide
+
+/-- `read_names` on a stream with ".", ".." and three names in some order; its hypotheses are satisfiable -/
+private def nm (n : Name) : HNode := .mk n default [] []
+example : (readNames true [nm [0x63], nm [0x2e, 0x2e], nm [0x61, 0xff], nm [0x2e], nm [0x61]]).map HNode.name
+    = [[0x2e], [0x2e, 0x2e], [0x61], [0x61, 0xff], [0x63]] := by decide
+example : ([nm [0x63], nm [0x2e, 0x2e], nm [0x61, 0xff], nm [0x2e], nm [0x61]].map HNode.name).Nodup := by decide
+/-- a conforming `qsort` result in the sense of `qsort_any_conforming` -/
+example : [nm [0x61], nm [0x62]].Perm [nm [0x62], nm [0x61]] ∧
+    [nm [0x61], nm [0x62]].Pairwise (fun a b => compareNames a b ≤ 0) := by
+  refine ⟨List.Perm.swap _ _ _, ?_⟩
+  simp only [List.pairwise_cons, List.mem_cons, List.not_mem_nil, or_false, forall_eq, List.Pairwise.nil, and_true,
+    false_imp_iff, implies_true]
+  decide
+
+/-- `fstree_sort_files`: a literal line, a glob line, files of equal priority keep their order -/
+example : (sortFiles (fun p s _ => p == s || p == [0x2a]) [⟨5, 4, false, false, [0x62]⟩, ⟨-1, 0, true, true, [0x2a]⟩]
+    [[[0x61]], [[0x62]], [[0x63]]]).map (fun f => (f.path, f.prio, f.flags))
+    = [([[0x61]], -1, 0), ([[0x63]], -1, 0), ([[0x62]], 5, 4)] := by decide
 
 end Sqfs.C11
